@@ -88,7 +88,7 @@ def canary():
     return a and b
 
 
-def run_replay(pid, label, oblig, tier, seed):
+def run_replay(pid, label, oblig, tier, seed, mode=None):
     """-> dict(reproduced=bool, ...) from the scenario template of the obligation's function"""
     func = oblig['func']
     script = os.path.join(ROOT, 'replay', 'driver.py')
@@ -96,6 +96,8 @@ def run_replay(pid, label, oblig, tier, seed):
         return {'reproduced': False, 'note': 'no replay driver'}
     req = {'property': pid, 'label': label, 'func': func, 'model': oblig.get('model'),
            'tier': tier, 'seed': seed}
+    if mode:
+        req['mode'] = mode
     try:
         p = subprocess.run([VENV_PY, script], input=json.dumps(req), capture_output=True, text=True,
                            timeout=600, cwd=ROOT,
